@@ -92,6 +92,68 @@ theorem C15_delta_oob (s starts : List Nat) (h : Nat) (hh : s.length ≤ h ∨ s
   · have : h ≥ starts.length := by omega
     simp [h1, this]
 
+/-- change-since-window-start vector (`DeltaChange`), point read: the formula, without panic, whenever the window starts at or before `h` -/
+theorem C15_chg_one (s starts : List Nat) (h : Nat) (hh : h < s.length) (hs : h < starts.length)
+    (hw : starts.getD h 0 ≤ h) : chgOne s starts h = .ok (chgFormula s starts h) := by
+  unfold chgOne chgFormula
+  have h1 : ¬ h ≥ s.length := by omega
+  have h2 : ¬ h ≥ starts.length := by omega
+  simp only [h1, h2, if_false, or_self]
+  generalize starts.getD h 0 = st at hw
+  have hlt : st < s.length := by omega
+  rw [List.getElem?_eq_getElem hlt]
+  have : ¬ st > h := by omega
+  simp only [this, if_false]
+
+theorem C15_chg_oob (s starts : List Nat) (h : Nat) (hh : s.length ≤ h ∨ starts.length ≤ h) :
+    chgOne s starts h = .ok none := by
+  unfold chgOne
+  by_cases h1 : h ≥ s.length
+  · simp [h1]
+  · have : h ≥ starts.length := by omega
+    simp [h1, this]
+
+/-- sorted reads of the change vector: exactly the formula at every requested in-range index, in request order, nothing for
+the others — whenever every window starts at or before its index (so also when the lookback IS the index itself) -/
+theorem C15_chg_sorted (s starts idx : List Nat) (hw : ∀ h, h < min s.length starts.length → starts.getD h 0 ≤ h) :
+    chgSorted s starts idx = .ok (idx.filterMap (chgFormula s starts)) := by
+  unfold chgSorted
+  suffices hh : ∀ (acc : List Nat), idx.foldl (fun (acc : R (List Nat)) h =>
+      match acc with
+      | .panic => .panic
+      | .ok l =>
+        if h ≥ min s.length starts.length then .ok l else
+        let start := starts.getD h 0
+        match s[start]? with
+        | none => .panic
+        | some a => if start > h then .panic else .ok (l ++ [s.getD h 0 - a])) (.ok acc) = .ok (acc ++ idx.filterMap (chgFormula s starts)) by
+    have := hh []
+    rw [List.nil_append] at this
+    exact this
+  induction idx with
+  | nil => intro acc; simp
+  | cons h t ih =>
+    intro acc
+    simp only [List.foldl_cons, List.filterMap_cons]
+    by_cases hb : h ≥ min s.length starts.length
+    · have hf : chgFormula s starts h = none := by
+        unfold chgFormula
+        have : h ≥ s.length ∨ h ≥ starts.length := by omega
+        simp [this]
+      simp only [hb, if_true, hf]
+      exact ih acc
+    · have hst := hw h (by omega)
+      have hlt : starts.getD h 0 < s.length := by omega
+      have hf : chgFormula s starts h = some (s.getD h 0 - s[starts.getD h 0]) := by
+        unfold chgFormula
+        have : ¬(h ≥ s.length ∨ h ≥ starts.length) := by omega
+        simp only [this, if_false]
+        rw [List.getElem?_eq_getElem hlt]
+      have hng : ¬ starts.getD h 0 > h := by omega
+      simp only [hb, if_false, List.getElem?_eq_getElem hlt, hng, hf]
+      rw [ih]
+      simp
+
 theorem C15_agg_one (s mapping : List Nat) (i : Nat) : aggOne s mapping i = aggFormula s mapping i := rfl
 
 theorem C15_agg_oob (s mapping : List Nat) (i : Nat) (h : mapping.length ≤ i) : aggOne s mapping i = none := by
